@@ -23,8 +23,11 @@ package connectors
 //@   nosafety
 //@   ensures called("send:readComplete")
 
+// (What a read returned is handed on in full, also the records that arrive TOGETHER with the end of
+// input - bounded sources deliver their last records that way.)
 //@ func ReadSourceChannel.Start$1
 //@   property C16 C04
 //@   nosafety
 //@   atcall ReadEvents: same(recv_, c.sourceReader)
 //@   ensures called(ReadEvents)
+//@   ensures result1 == nil ==> same(result0, events)
